@@ -376,6 +376,43 @@ func run(r *Rng, tier string, n int) {
 			}
 		}
 	}
+	// the other way to reach the 255-octet limit: MANY short labels. k labels of one octet (2k+1 octets on the
+	// wire) for k around 127, the same with one label longer, and label lengths 1..4 mixed, total 253..257
+	for k := 120; k <= 130; k++ {
+		for _, fill := range []byte{'a', 'Z', '.', '\\', 0x00, 0xff} {
+			ls := make([][]byte, k)
+			for i := range ls {
+				ls[i] = []byte{fill}
+			}
+			oracleLabels(ls, fill == 'a')
+			ls2 := append([][]byte{}, ls...)
+			ls2[k/2] = []byte{fill, fill}
+			oracleLabels(ls2, false)
+			ls3 := append([][]byte{}, ls...)
+			ls3[k-1] = []byte{fill, fill, fill}
+			oracleLabels(ls3, false)
+		}
+	}
+	for total := 253; total <= 257; total++ {
+		for _, unit := range []int{1, 2, 3, 4} {
+			var ls [][]byte
+			left := total - 1 // the root octet
+			for left > 0 {
+				n := unit
+				if left-(n+1) < 0 {
+					n = left - 1
+				}
+				if n <= 0 {
+					break
+				}
+				ls = append(ls, bytes.Repeat([]byte{'m'}, n))
+				left -= n + 1
+			}
+			if left == 0 {
+				oracleLabels(ls, unit == 1)
+			}
+		}
+	}
 	// names are octet strings: a multi-octet UTF-8 character (or an invalid UTF-8 octet) right before the
 	// backslashes that precede a dot must not change how many of them there are
 	for _, pre := range []string{"\xc3\xa9", "\xe6\x97\xa5", "\xf0\x9f\x98\x80", "\xff", "a", "x.\xc3\xa9", "\xc3\xa9\xc3\xa9"} {
